@@ -13,7 +13,7 @@ RELATED = {
     "C01": [("c06", ["R06.1"]), ("c11", ["R11.2"]), ("c12", ["R12.2"]), ("c07", ["R07.2", "R07.5~chunk-lookup-key|pread-args|decode-other-buffer|miss-error-swallowed|readers-disagree", "R07.6"]), ("c03", ["R03.1"])],
     "C02": [("c12", ["R12.1", "R12.2", "R12.4", "R12.7", "R12.8", "R12.9"]), ("c08", ["R08.1", "R08.4", "R08.5", "R08.6"]), ("c11", ["R11.1", "R11.2", "R11.7"]), ("c09", ["R09.1", "R09.2"]), ("c07", ["R07.6"]), ("c03", ["R03.1"]),
             ("lints", ["L.partial-write", "L.partial-read", "L.try-send"])],
-    "C03": [("c08", ["R08.1", "R08.2", "R08.3"]), ("c09", ["R09.1", "R09.2", "R09.3", "R09.5"]), ("c11", ["R11.2"]), ("c12", ["R12.1", "R12.4", "R12.7"]),
+    "C03": [("c08", ["R08.1", "R08.2", "R08.3"]), ("c09", ["R09.1", "R09.2", "R09.3", "R09.5"]), ("c11", ["R11.2"]), ("c12", ["R12.1", "R12.4", "R12.7", "R12.11"]),
             ("c04", ["R04.4", "R04.6", "R04.8", "R04.9", "R04.10"]), ("c14", ["R14.4"]), ("lints", ["L.partial-write", "L.partial-read", "L.try-send", "L.file-create-truncate"])],
     "C04": [("c08", ["R08.7"]), ("c03", ["R03.4"]), ("c14", ["R14.4"]), ("lints", ["L.partial-write", "L.try-send"])],
     "C05": [("c04", ["R04.10"]), ("c10", ["R10.1", "R10.2", "R10.3", "R10.4", "R10.6", "R10.7"]), ("c09", ["R09.3", "R09.4", "R09.5"]), ("c12", ["R12.6", "R12.7", "R12.8", "R12.9"]), ("c08", ["R08.4"]), ("c11", ["R11.7"]),
@@ -24,7 +24,7 @@ RELATED = {
     "C08": [("c04", ["R04.1", "R04.3"]), ("c03", ["R03.4"]), ("c14", ["R14.4"]), ("lints", ["L.try-send"])],
     "C09": [("c12", ["R12.1", "R12.3", "R12.6", "R12.7", "R12.8", "R12.9"]), ("c10", ["R10.6", "R10.8"]), ("c05", ["R05.1*"]), ("c08", ["R08.1~outside-worker"]), ("c03", ["R03.3"]), ("lints", ["L.partial-read"])],
     "C10": [("c11", ["R11.8~truncate_incomplete_record"]), ("c09", ["R09.1", "R09.5"]), ("c12", ["R12.7", "R12.8", "R12.9"]), ("c05", ["R05.3"]), ("lints", ["L.partial-read"])],
-    "C11": [("c12", ["R12.4"]), ("c08", ["R08.1", "R08.4", "R08.5", "R08.6"]), ("c02", ["R02.4"]), ("c07", ["R07.6"]), ("c03", ["R03.1"]), ("lints", ["L.partial-write", "L.file-create-truncate"])],
+    "C11": [("c12", ["R12.4", "R12.11"]), ("c08", ["R08.1", "R08.4", "R08.5", "R08.6"]), ("c02", ["R02.4"]), ("c07", ["R07.6"]), ("c03", ["R03.1"]), ("lints", ["L.partial-write", "L.file-create-truncate"])],
     "C12": [("c03", ["R03.3"]), ("lints", ["L.partial-read"])],
     "C13": [],
     "C14": [("c13", ["R13.2", "R13.6", "R13.7"]), ("c04", ["R04.7", "R04.9"])],
